@@ -234,7 +234,9 @@ CHECKS = {
         "assumptions": E1_ASSUME[:4] + ["schedules are sampled, not enumerated; at most 3 threads", "stuck states caused by a bitcoind outage are C12's business"],
     },
     "C12": {
-        "engines": lambda tier: [{"engine": "e1o", "shards": 16, "args": {"cases": 30 if tier == "thorough" else 3, "max_faults": 600 if tier == "thorough" else 80}}],
+        "bins": True,
+        "engines": lambda tier: [{"engine": "e1o", "shards": 16, "args": {"cases": 30 if tier == "thorough" else 3, "max_faults": 600 if tier == "thorough" else 80}},
+                                 {"engine": "e3o", "shards": 4, "timeout_s": 6000, "args": {"cases": 24 if tier == "thorough" else 2, "max_faults": 40 if tier == "thorough" else 10, "parallel": 8}}],
         "level": "fault_enumeration",
         "rule": "fault space = for each history H (an E1 history of 25-65 steps that passed every sequential monitor): for EVERY node RPC issued in H an outage that "
                 "starts exactly at that RPC (transport errors for RPCs, transient errors for every block-source call) and lasts k in {0,1,2} further polls, with and "
@@ -245,7 +247,11 @@ CHECKS = {
                 "for the node while > 400 of its RPCs fail with transport errors has noticed the outage without waiting for it to end: violation (with the value of the "
                 "reachability flag the public API consults); (2) once a call is waiting for the node, all four public endpoints answer 'unavailable'; (3) every poll issued during the outage returns; (4) after the node is back, within 2 polls and 3 clock "
                 "ticks the interrupted call completes, the API is available again, and (5) from H's next poll on the database equals the uninterrupted run's "
-                "(every breach answered, nothing dropped). non-trivial = fault reached; distinct = distinct (history, fault).",
+                "(every breach answered, nothing dropped). non-trivial = fault reached; distinct = distinct (history, fault). Second engine (e3o), same oracle in real "
+                "time against the real teosd binary: from teosd's k-th node RPC on the fake bitcoind drops every TCP connection without an answer (RPC and block "
+                "source); the operation in flight runs on a worker thread; while it waits the four public endpoints are probed over HTTP / gRPC (no answer within 8 s = "
+                "the API hangs: violation); polls granted during the outage must return; after the node is back the operation must complete within 30 s (the Carrier's "
+                "retry period is 10 s), the API must take work again and the database must equal the uninterrupted run's after every later operation.",
         "assumptions": E1_ASSUME[:2] + [
             "an outage takes down RPC and block source together; scripted at call granularity",
             "bounded progress replaces 'eventually': 2 polls + 3 ticks of the carrier's retry clock after the node is back",
